@@ -336,6 +336,60 @@ Definition ai_run (names : list name) (o : nat -> ai_outcome) : outcome (list na
   | n :: _ => ai_loop (length names) names o 1 0 [n]
   end.
 
+(* AF_UNSPEC: two queries (A and AAAA) per candidate.  The completion that leaves one query
+   outstanding only adds its addresses to hquery->ai; the decision is taken when the second
+   one completes, on ITS status, with hquery->ai->nodes holding the addresses of both.
+   [first], [last]: the two outcomes in completion order. *)
+Definition has_addr (oc : ai_outcome) : bool := (ao_status oc =? ARES_SUCCESS) && ao_addr oc.
+
+Definition host_callback2 (names : list name) (next : nat) (nodata_cnt : nat) (first last : ai_outcome)
+  : outcome (ai_step * nat) :=
+  let status := ao_status last in
+  let addinfostatus :=
+    if status =? ARES_SUCCESS then (if ao_addr last then ARES_SUCCESS else ARES_ENODATA)
+    else ARES_SUCCESS in
+  let nodes := has_addr first || has_addr last in
+  if (status =? ARES_EDESTRUCTION) || (status =? ARES_ECANCELLED) then Ok (AiEnd status, nodata_cnt)
+  else if nodes then Ok (AiEnd ARES_SUCCESS, nodata_cnt)
+  else if (status =? ARES_ENOTFOUND) || (status =? ARES_ENODATA) || (addinfostatus =? ARES_ENODATA) then
+    let nd := if (status =? ARES_ENODATA) || (addinfostatus =? ARES_ENODATA)
+              then S nodata_cnt else nodata_cnt in
+    Ok (AiNext (if (0 <? nd)%nat then ARES_ENODATA else status), nd)
+  else if (status =? ARES_ESERVFAIL) || (status =? ARES_EREFUSED) then
+    match next with
+    | O => UB OutOfBounds
+    | S i => match nth_error names i with
+             | None => UB OutOfBounds
+             | Some n => if N.eqb (name_label_cnt n) 1%N
+                         then Ok (AiNext (if (0 <? nodata_cnt)%nat then ARES_ENODATA else status), nodata_cnt)
+                         else Ok (AiEnd status, nodata_cnt)
+             end
+    end
+  else Ok (AiEnd status, nodata_cnt).
+
+Fixpoint ai2_loop (fuel : nat) (names : list name) (o : nat -> ai_outcome * ai_outcome) (next nodata_cnt : nat)
+  (sent : list name) : outcome (list name * Z) :=
+  match fuel with
+  | O => Err OutOfFuel
+  | S f =>
+    do r <- host_callback2 names next nodata_cnt (fst (o (pred next))) (snd (o (pred next)));
+    match fst r with
+    | AiEnd s => Ok (rev sent, s)
+    | AiNext st =>
+      match nth_error names next with
+      | None => Ok (rev sent, st)
+      | Some n => ai2_loop f names o (S next) (snd r) (n :: sent)
+      end
+    end
+  end.
+
+(* the candidates for which the pair of queries was sent, and the final status *)
+Definition ai2_run (names : list name) (o : nat -> ai_outcome * ai_outcome) : outcome (list name * Z) :=
+  match names with
+  | [] => Ok ([], ARES_ECONNREFUSED)
+  | n :: _ => ai2_loop (length names) names o 1 0 [n]
+  end.
+
 (* ------------------------------------------------------------------------------------ *)
 (* Specification (resolv.conf(5) + the property statement), independent of the code shape *)
 (* ------------------------------------------------------------------------------------ *)
@@ -403,3 +457,11 @@ Definition stop_rule (names : list name) (o : nat -> Z) (queried : list name) (f
 Definition ai_status (oc : ai_outcome) : Z :=
   if ao_status oc =? ARES_SUCCESS then (if ao_addr oc then ARES_SUCCESS else ARES_ENODATA)
   else ao_status oc.
+
+(* the status of a candidate that was looked up with two queries: data if either family gave
+   addresses, otherwise the status of the query that completed last (a cancellation of the last
+   one wins) *)
+Definition ai2_combine (first last : ai_outcome) : ai_outcome :=
+  if (ao_status last =? ARES_EDESTRUCTION) || (ao_status last =? ARES_ECANCELLED) then last
+  else if has_addr first || has_addr last then {| ao_status := ARES_SUCCESS; ao_addr := true |}
+  else last.
